@@ -12,11 +12,13 @@
     of registered and of active keys, and which special keys are registered.
   * `C10_counterexample_plain_tracklet_key_unregistered`: "every special key that is not None is
     registered" is FALSE for a plain `Tracks`: `tracklet_key`/`lineage_key` are set, the features
-    are not registered.  Consequence `C10_counterexample_from_tracks_ids_inactive`:
-    `SolutionTracks.from_tracks` of such tracks whose graph carries ids yields a solution whose id
-    features are neither registered nor active (the TrackAnnotator ignores every later edit).
-    `C10_counterexample_from_tracks_keyerror`: `from_tracks` of tracks whose FeatureDict has no
-    lineage key raises KeyError.  All three replayed on the real code (see the report).
+    are not registered.  Consequence `C10_counterexample_from_tracks_ids_inactive_unfixed`: the
+    UNREPAIRED `SolutionTracks.from_tracks` (`fromTracksUnfixed`) of such tracks whose graph carries
+    ids yields a solution whose id features are neither registered nor active (the TrackAnnotator
+    ignores every later edit).  `C10_counterexample_from_tracks_keyerror_unfixed`: it raises KeyError
+    on tracks whose FeatureDict has no lineage key.  Both were replayed on the real code and then
+    repaired (fix commit 895cc32); `fromTracks` is the repaired function
+    (`C04_from_tracks_ids_active` in `Props/C04_R7S.lean`).
   * `C10_construct_position_registered` + `C10_construct_position_D10_witness`.
   * `C10_construct_enable_sets_special_keys` + `C10_construct_enable_D17_witness`.
   * `C10_construct_enable_registry`: `enable_features` on a constructed object keeps the registry
@@ -199,38 +201,59 @@ theorem C10_counterexample_plain_tracklet_key_unregistered :
     "track_id" ∉ regKeys (construct exPlain) ∧ "lineage_id" ∉ regKeys (construct exPlain) := by decide
 #print axioms C10_counterexample_plain_tracklet_key_unregistered
 
-/-- consequence (replayed on the real code): `SolutionTracks.from_tracks(tracks)` of such plain
-    tracks whose graph carries a track id and a lineage id on EVERY node: `force_recompute` stays
-    False, the constructor gets the FeatureDict of the plain tracks — which does not list the id
-    features — so nothing is activated: the solution's id features are neither registered nor
-    active although `tracklet_key`/`lineage_key` name them; the bookkeeping is the one read from the
-    graph at construction and `TrackAnnotator.update` returns early on every later edit. -/
-theorem C10_counterexample_from_tracks_ids_inactive :
-    ∃ s, fromTracks (construct exPlain) = some s ∧ s.solution = true ∧
+/-- consequence, found with this model and since REPAIRED (fix commit 895cc32; the repaired
+    function is `fromTracks`, see `C04_from_tracks_ids_active`): the unrepaired
+    `SolutionTracks.from_tracks(tracks)` (`fromTracksUnfixed`) of such plain tracks whose graph
+    carries a track id and a lineage id on EVERY node: `force_recompute` stays False, the
+    constructor gets the FeatureDict of the plain tracks — which does not list the id features —
+    so nothing is activated: the solution's id features are neither registered nor active although
+    `tracklet_key`/`lineage_key` name them; the bookkeeping is the one read from the graph at
+    construction and `TrackAnnotator.update` returns early on every later edit (replayed on the
+    unrepaired code: `UserDeleteEdge` after `from_tracks` relabelled nothing). -/
+theorem C10_counterexample_from_tracks_ids_inactive_unfixed :
+    ∃ s, fromTracksUnfixed (construct exPlain) = some s ∧ s.solution = true ∧
       s.trackletKey = some "track_id" ∧ s.lineageKey = some "lineage_id" ∧
       regKeys s = ["time", "pos"] ∧ activeKeys s = [] ∧ tableKeys s = ["track_id", "lineage_id"] ∧
       s.computed = [] ∧
       s.track.map (fun a => (a.tSrc, a.t2n, a.maxT)) = some (.fromGraph, [(4, [1]), (7, [2]), (8, [3])], 8) :=
   ⟨_, rfl, by decide, by decide, by decide, by decide, by decide, by decide, by decide, by decide⟩
-#print axioms C10_counterexample_from_tracks_ids_inactive
+#print axioms C10_counterexample_from_tracks_ids_inactive_unfixed
 
-/-- with one id missing the same call recomputes and registers (the branch the test suite covers) -/
-theorem C10_from_tracks_recompute_example :
-    ∃ s, fromTracks (construct { exPlain with nodes := exNodes }) = some s ∧
+/-- the repaired function on the same input: registered, active, nothing recomputed, same lookups -/
+theorem C10_from_tracks_ids_active_example :
+    ∃ s, fromTracks (construct exPlain) = some s ∧
       regKeys s = ["time", "pos", "track_id", "lineage_id"] ∧ activeKeys s = ["track_id", "lineage_id"] ∧
-      s.computed = [(.track, "track_id"), (.track, "lineage_id")] :=
-  ⟨_, rfl, by decide, by decide, by decide⟩
+      s.computed = [] ∧
+      s.track.map (fun a => (a.tSrc, a.t2n, a.maxT)) = some (.fromGraph, [(4, [1]), (7, [2]), (8, [3])], 8) :=
+  ⟨_, rfl, by decide, by decide, by decide, by decide⟩
+#print axioms C10_from_tracks_ids_active_example
+
+/-- with one id missing the call recomputes and registers (repaired and unrepaired alike; the
+    branch the test suite covers) -/
+theorem C10_from_tracks_recompute_example :
+    (∃ s, fromTracks (construct { exPlain with nodes := exNodes }) = some s ∧
+      regKeys s = ["time", "pos", "track_id", "lineage_id"] ∧ activeKeys s = ["track_id", "lineage_id"] ∧
+      s.computed = [(.track, "track_id"), (.track, "lineage_id")]) ∧
+    fromTracksUnfixed (construct { exPlain with nodes := exNodes }) =
+      fromTracks (construct { exPlain with nodes := exNodes }) :=
+  ⟨⟨_, rfl, by decide, by decide, by decide⟩, by decide⟩
 #print axioms C10_from_tracks_recompute_example
 
-/-- `from_tracks` of tracks whose FeatureDict has a tracklet key but no lineage key (the "old
-    project file" of D17) and at least one node: `get_node_attr(node, None)` is None, so
-    `force_recompute` is set and `enable_features(["track_id", None])` raises
-    `KeyError: 'Features not available: [None]'` (replayed on the real code). -/
-theorem C10_counterexample_from_tracks_keyerror :
+/-- the unrepaired `from_tracks` of tracks whose FeatureDict has a tracklet key but no lineage key
+    (the "old project file" of D17) and at least one node: `get_node_attr(node, None)` is None, so
+    `force_recompute` is set and `enable_features(["track_id", None])` raised
+    `KeyError: 'Features not available: [None]'` (replayed on the unrepaired code).  The repaired
+    function enables the tracklet key alone (and, `force_recompute` being set, recomputes the track
+    ids); the lineage key stays None. -/
+theorem C10_counterexample_from_tracks_keyerror_unfixed :
     (construct { exOld with solution := false }).trackletKey = some "track_id" ∧
     (construct { exOld with solution := false }).lineageKey = none ∧
-    fromTracks (construct { exOld with solution := false }) = none := by decide
-#print axioms C10_counterexample_from_tracks_keyerror
+    fromTracksUnfixed (construct { exOld with solution := false }) = none ∧
+    ∃ s, fromTracks (construct { exOld with solution := false }) = some s ∧
+      s.lineageKey = none ∧ regKeys s = ["time", "pos", "track_id"] ∧ activeKeys s = ["track_id"] ∧
+      s.computed = [(.track, "track_id")] :=
+  ⟨by decide, by decide, by decide, _, rfl, by decide, by decide, by decide, by decide⟩
+#print axioms C10_counterexample_from_tracks_keyerror_unfixed
 
 /-! ## D10 guard: every position key is registered -/
 
